@@ -572,6 +572,9 @@ def run_header_guards(P, rep):
     dec_fns = [f for f in P.fns if f.lib == 'Decoder' and not f.nocfg]
     hdr_entry = P.fn('read_frame_header_obu')
     hdr = set(g for g in P.reachable_from([hdr_entry]) if g.lib == 'Decoder' and not g.nocfg) | {hdr_entry}
+    # the OBU-level functions of the same file that read header syntax outside the frame header (tile group start / end)
+    disp0 = P.fn('decode_multiple_obu')
+    hdr |= set(g for g in P.reachable_from([disp0]) if g.lib == 'Decoder' and not g.nocfg and g.file == hdr_entry.file)
     by_file = {}
     for f in dec_fns:
         by_file.setdefault(f.file, []).append(f)
@@ -593,11 +596,13 @@ def run_header_guards(P, rep):
                        'assert(0) is followed by an error return' if ok else
                        ('%s detects a stream error at line %d and only asserts: a release build carries on with the header it has just found to be corrupt' % (f.name, l)))
                 continue
-            m = _re.match(r'^\(?\s*\(?([A-Za-z_][\w\.\->\[\] ]*?)\)?\s*(<=|<)\s*(.+?)\)?$', txt)
+            m = _re.match(r'^\(?\s*\(?([A-Za-z_][\w\.\->\[\] ]*?)\)?\s*(?<!-)(<=|<|>=|>)\s*(.+?)\)?$', txt)
             if not m:
                 continue
             x = m.group(1).strip()
-            xid = _re.findall(r'[A-Za-z_]\w*', x)[-1]
+            ids_l = _re.findall(r'[A-Za-z_]\w*', x)
+            ids_l = [t for t in ids_l if t not in ('i', 'j', 'k')] or ids_l
+            xid = ids_l[-1]
             derived = False
             for ev in f.events(('decl', 'st'), reachable=False):
                 e = ev.get('e')
